@@ -86,7 +86,15 @@ impl Parse for JoinInputDefault {
             WRAPPER_DETERMINER,
         );
 
-        for _ in 0..4 {
+        //
+        // Options may be given in any order, each at most once, so keep parsing until no option is left
+        // (a fixed number of passes would let a repeated option through as the beginning of the first branch).
+        //
+        while input.peek(keywords::futures_crate_path)
+            || input.peek(keywords::custom_joiner)
+            || input.peek(keywords::transpose_results)
+            || input.peek(keywords::lazy_branches)
+        {
             if input.peek(keywords::futures_crate_path) {
                 input.parse::<keywords::futures_crate_path>()?;
                 let content;
